@@ -22,6 +22,12 @@ theorem gen_sub_empty_test : Generated.C03.subEmptyTest = "len(transferProposals
 theorem gen_evm_order :
     Generated.C03.evmOrder = ["lookup", "err-return", "skip-executed", "append:currentBatch.proposals"] := by decide
 
+/-- EVM / Substrate `Execute`: the proposals handed to hashing (signed) and to watchExecution (submitted) are the
+    same variable (model: `submitted`) -/
+theorem gen_signed_is_submitted :
+    Generated.C03.evmHashArg = Generated.C03.evmWatchArg ++ ".proposals" ∧ Generated.C03.evmWatchArg ≠ "" ∧
+    Generated.C03.subHashArg = Generated.C03.subWatchArg ∧ Generated.C03.subWatchArg ≠ "" := by decide
+
 /-- BTC: the source's executable-status predicate is the model's `canExec` -/
 theorem gen_btc_canExec (v : Status) : Generated.C03.btcCanExec (statusCode v) = canExec v := by
   cases v <;> decide
